@@ -5,7 +5,7 @@ from oracledefs.common import _ops
 def txvis_oracle(script, impl):
     probs = []
     for ws, out in _ops(script, impl):
-        if ws[0] == 'vis' and not out.startswith('ok'):
+        if ws[0] in ('vis', 'failcommit') and not out.startswith('ok'):
             probs.append('%s: %s' % (' '.join(ws), out[:300]))
     return probs
 
@@ -14,6 +14,8 @@ def txvis_nontrivial(script, impl):
     for ws, out in _ops(script, impl):
         if out.startswith('ok reads='):
             return int(out.split()[1].split('=')[1]) >= 100
+        if out.startswith('ok failed=True'):
+            return True
     return False
 
 
